@@ -30,3 +30,20 @@ Print Assumptions C16_c_reading_has_the_same_value.
 Theorem C16_no_decrement_token : forall e, lex_safe e = true.
 Proof. apply lex_safe_all. vm_compute. reflexivity. Qed.
 Print Assumptions C16_no_decrement_token.
+
+(* statement level: for EVERY statement tree whose expressions are well formed, the tokens C/formatter.py prints for it
+   (model StmtFmt.fmtS, compared token by token with the real Formatter on every kernel of the corpus by stmtcorr.py)
+   derive that tree under the statement grammar written from C17 6.7 / 6.8: declarations with initialiser lists,
+   assignments and +=, for loops with their bounds, blocks, spliced statement lists *)
+From FFCX Require Import StmtFmt.
+
+Theorem C16_printed_statements_derive_the_tree :
+  forall (tyname : dtype -> string) (nest : list Z -> list expr -> ini) s,
+    wfS nest s = true -> GS tyname (fmtS tyname nest s) (canonS s).
+Proof. exact fmtS_derives. Qed.
+Print Assumptions C16_printed_statements_derive_the_tree.
+
+Theorem C16_printed_initialisers_derive_the_nesting :
+  forall i, wfI i = true -> GI (fmtI i) (canonI i).
+Proof. exact fmtI_derives. Qed.
+Print Assumptions C16_printed_initialisers_derive_the_nesting.
